@@ -23,7 +23,7 @@ class CancelScenario(FaultEnumScenario):
         n = sum(1 for k, d, s in seams if k == "cmd:" + exe)
         faults = []
         for k in range(1, n + 1):
-            for kind in ("F1", "F2"):
+            for kind in ("F1", "F2", "F4"):
                 faults.append({"cmd_faults": [[exe, k, kind]]})
         self.extra["scenarios_with_accepted_jobs"] = 1 if n else 0
         return faults
@@ -55,6 +55,11 @@ class CancelScenario(FaultEnumScenario):
             pre_phase[n] = None if ref is None else w.job_phase(ref)
         if w.local is not None:
             w.local.cancel_log = []
+        # jobs of targets that are neither selected nor downstream of a selected target (a scheduler may
+        # legitimately cancel jobs whose prerequisite was cancelled)
+        affected = w.model.downstream(set(selected))
+        others_live = {n: w.jref(n) for n in w.model.targets if n not in affected and w.jref(n) is not None
+                       and w.job_phase(w.jref(n)) in ("pending", "running")}
         res = w.gwf(argv, op.get("cwd", "root"), stdin=stdin, cmd_faults=fault.get("cmd_faults", ()))
         facets = dict(interruption=op.get("fault_class", "none"))
         if declined:
@@ -112,6 +117,11 @@ class CancelScenario(FaultEnumScenario):
             w.cluster.acct_flush()  # "once the scheduler has carried out the cancellations"
         if w.local is not None:
             w.local.settle_timers()
+        for n, ref in sorted(others_live.items()):
+            w.probe("unselected_live_jobs_checked")
+            if w.job_phase(ref) == "done" and w.job_result(ref) == "cancelled":
+                w.flag("C17", "unselected_job_cancelled", f"gwf {' '.join(argv)} led to the cancellation of {n}'s job "
+                       f"{ref}, which was not selected", **facets)
         exp = w.m_status()
         r1 = w.gwf(["status"], "root")
         if r1.exit_code == 0 and r1.exception is None:
